@@ -11,7 +11,9 @@ import (
 	"verifharness/core"
 )
 
-func init() { core.Register(core.Check{ID: "C10", Level: "exploration", Run: runC10}) }
+func init() {
+	core.Register(core.Check{ID: "C10", Level: "exploration", Run: func(c *core.Ctx) { runC10(c); reentrancyPass(c, "C10") }})
+}
 
 // refParsePath follows C10's grammar literally. dontCare marks the single string the statement leaves open ("m/").
 func refParsePath(s string) (path []uint32, ok bool, dontCare bool) {
